@@ -18,7 +18,7 @@ pub fn scenarios() -> Vec<Scenario> {
         name: "c11-relay",
         gen,
         run,
-        quick_runs: 200_000,
+        quick_runs: 600_000,
         weight: 1,
         rule: "case = byte string (canonical and non-canonical spellings of valid packets: long forms, non-minimal integers, shuffled properties, lenient flags; survivors of corruption) relayed through each accepting front-end; non-trivial when at least one front-end accepts; distinct by case hash",
     }]
